@@ -59,6 +59,40 @@ def derives_from_random(prog, b, local):
     return bool(locs & rl) or any(is_csprng_call(prog, c) for (_, c, _) in calls)
 
 
+def _session_value_root(b, p, sess_path, depth=0):
+    """which session *value* a part of a session aggregate is copied from, following copies and moves only: ("state", text) for a value stored
+    in the owner's state (behind a dereference: a field of self / of a captured self), ("local", text) for a local session value (a decoded
+    one, a parameter); None when the part is not read out of a session value (a constant, a call result, arithmetic)"""
+    if p is None or depth > 8:
+        return None
+    l, proj = p[0], p[1]
+    fields = [e for e in proj if e[0] == "field"]
+    if fields and len(proj) >= 1:
+        holder = proj[:-1]
+        # the value the last field is read from
+        if not holder and (b.local_ty_def(l) or "") == sess_path:
+            r = _session_value_root(b, [l, []], sess_path, depth + 1)
+            return r if r and r[0] == "state" else ("local", f"_{l}" + (f" ({b.local_name(l)})" if b.local_name(l) else ""))
+        if any(e[0] == "deref" for e in holder):
+            names = [e[2] for e in holder if e[0] == "field" and len(e) > 2 and e[2]]
+            return ("state", "the stored `" + ".".join(names) + "`") if names else None
+        return None
+    for d in b.defs().get(l, []):
+        if d[0] != "assign":
+            return None
+        rv = d[3]["rv"]
+        q = op_place(rv.get("op")) if rv["k"] in ("use", "cast") else (rv.get("p") if rv["k"] == "ref" else None)
+        if q is None:
+            return None
+        if not q[1] and (b.local_ty_def(l) or "") == sess_path and (b.local_ty_def(q[0]) or "") != sess_path:
+            return None
+        if any(e[0] == "deref" for e in q[1]) and (b.local_ty_def(l) or "") == sess_path:
+            names = [e[2] for e in q[1] if e[0] == "field" and len(e) > 2 and e[2]]
+            return ("state", "the stored `" + ".".join(names) + "`") if names else None
+        return _session_value_root(b, q, sess_path, depth + 1)
+    return None
+
+
 def n5(ctx, prog, bodies):
     """N5: the per-session subkey binds the salt — the key material handed to blake3::derive_key is exactly `key || salt`.
     Accepted constructions: `[key, salt].concat()` (array of the two slices, the second one not a constant), or copies into a buffer
@@ -200,7 +234,24 @@ def run(ctx):
         if len(targets) < len(fields):
             ctx.anchor_lost("N1", f"field(s) {fields} of {sfx}")
             continue
+        shared_sess = {x["path"] for x in prog.items if x["k"] == "struct" and {"client_session_id", "server_session_id", "packet_id"} <= {n_ for (n_, _) in x["fields"]}}
         for (tit, f) in targets:
+            if tit["path"] != it["path"] and tit["path"] in shared_sess:
+                # the id now lives in the general datagram-session struct, which client and server build in many places for many purposes
+                # (decoded sessions, defaults, copies). The obligation is about *this* owner: wherever the association state is built, the
+                # session value it is given derives from a CSPRNG draw made there.
+                hold = [i for i, (nm, fty) in enumerate(it["fields"]) if last_seg(fty.split("<")[0].strip()) == last_seg(tit["path"])]
+                for b in bodies:
+                    for blk in b.rpo():
+                        for s in b.stmts(blk):
+                            if s["k"] == "assign" and s["rv"]["k"] == "agg" and s["rv"].get("def") == it["path"] and hold:
+                                n += 1
+                                p = op_place(s["rv"]["ops"][hold[0]])
+                                ok = p is not None and derives_from_random(prog, b, p[0])
+                                ctx.ob("N1", b.defp, f"{last_seg(sfx)}.{f}:from-csprng", loc(s["sp"]), ok,
+                                       f"the session value the association is built with derives from a CSPRNG draw in the per-session constructor ({what})" if ok else
+                                       f"{what}: the session value the association is built with does not derive from a CSPRNG call inside the constructor")
+                continue
             for b in bodies:
                 for blk in b.rpo():
                     for s in b.stmts(blk):
@@ -216,11 +267,15 @@ def run(ctx):
         from .common import place_field_owners
         nw = 0
         for (tit, f) in targets:
+            via_owner = tit["path"] != it["path"] and tit["path"] in shared_sess
             for b in bodies:
                 for blk in b.rpo():
                     for s in b.stmts(blk):
                         if s["k"] != "assign":
                             continue
+                        if via_owner and not any(o_ is not None and o_["path"] == it["path"] for (o_, _) in
+                                                 place_field_owners(prog, b, s["p"]) + (place_field_owners(prog, b, s["rv"]["p"]) if s["rv"]["k"] == "ref" else [])):
+                            continue      # a write to some other session value (a decoded one, the client's own) is not this owner's id
                         wplace, how = None, None
                         own = place_field_owners(prog, b, s["p"]) if any(e[0] == "field" and len(e) > 2 and e[2] == f for e in s["p"][1]) else []
                         if own and own[-1][1] == f and own[-1][0] is not None and own[-1][0]["path"] == tit["path"] and not [e for e in s["p"][1][::-1][:1] if e[0] != "field"]:
@@ -432,7 +487,22 @@ def run(ctx):
             for blk in b.rpo():
                 for s in b.stmts(blk):
                     if s["k"] == "assign" and s["rv"]["k"] == "agg" and s["rv"].get("def") == it["path"]:
+                        # exact provenance first (copies and moves only): which session *value* is each part read from?
+                        roots = {fn_: _session_value_root(b, op_place(s["rv"]["ops"][i_]), it["path"]) for fn_, i_ in fidx.items() if fn_.endswith(("session_id", "packet_id"))}
+                        own_ids = [f_ for f_ in ("client_session_id", "server_session_id") if roots.get(f_) and roots[f_][0] == "state"]
+                        if "server_packet_id" not in fidx and own_ids and roots.get("packet_id") and all(roots["packet_id"] != roots[f_] for f_ in own_ids):
+                            ctx.ob("N3", b.defp, "own-session-id-kept-implies-own-packet-counter-kept", loc(s["sp"]), False,
+                                   f"a session value keeps `{own_ids[0]}` from the owner's stored session ({roots[own_ids[0]][1]}) but takes `packet_id` from another session value "
+                                   f"({roots['packet_id'][1]}): the stored id selects the subkey this side seals with, and its counter is replaced by a number that belongs to the "
+                                   "other value's numbering (e.g. the peer's counter in a decoded packet) - the counter goes back and (key, nonce) pairs are reused")
                         for (sid, pid) in pairs:
+                            if roots.get(sid) and roots.get(pid):
+                                if roots[sid] != roots[pid]:
+                                    ctx.ob("N3", b.defp, f"{sid}-kept-implies-{pid}-kept", loc(s["sp"]), False,
+                                           f"`{sid}` is kept from {roots[sid][1]} while `{pid}` comes from {roots[pid][1]}: the counter no longer belongs to the id")
+                                else:
+                                    ctx.ob("N3", b.defp, f"{sid}-kept-implies-{pid}-kept", loc(s["sp"]), True, f"`{sid}` and `{pid}` are both kept from {roots[sid][1]}")
+                                continue
                             ps, pp = op_place(s["rv"]["ops"][fidx[sid]]), op_place(s["rv"]["ops"][fidx[pid]])
                             if ps is None:
                                 continue      # a constant id (e.g. 0 for "not assigned yet") starts a fresh numbering
@@ -458,17 +528,20 @@ def run(ctx):
         encs = [(blk, c, t) for (blk, c, t) in b.calls() if c.method == "encode" and "SessionCodec" in (c.self_def or "")]
         ok = bool(incs) and bool(encs) and all(any(b.dominates(ib, eb) and ib != eb for (ib, _, _) in incs) for (eb, _, _) in encs)
         ctx.ob("N3", b.defp, "increment-before-encode", loc(b.sp), ok, "every datagram encode is dominated by a packet-id increment" if ok else "a datagram can be encoded without advancing the packet id")
-    srv = [b for b in bodies if "UdpAssociateContext" in (prog.display(b.defp)) and any(c.method == "checked_add" for (_, c, _) in b.calls())]
+    # role: the server's association task advances its reply counter with a checked add of its own, or with the session's increment method
+    srv = [b for b in bodies if b.defp.startswith("octo_squirrel_server") and any(c.name == "UdpSocket::send_to" or c.name == "UdpSocket::recv_from" for (_, c, _) in b.calls())
+           and any(c.method == "checked_add" or c.target in inc_paths for (_, c, _) in b.calls())]
     ctx.floor("N3", "server packet-id increment (checked_add)", 1, len(srv))
     for b in srv:
         for (blk, c, t) in b.calls():
-            if c.method != "checked_add":
+            if c.method != "checked_add" and c.target not in inc_paths:
                 continue
-            gates = [g for g in gates_of_value(b, t["dest"][0]) if g.kind == "option"]
+            is_opt = c.method == "checked_add"
+            gates = [g for g in gates_of_value(b, t["dest"][0]) if (g.kind == "option" if is_opt else g.kind in ("result", "try"))]
             lp = b.innermost_loop(blk)
             ok = False
             for g in gates:
-                none_t = g.target_for(0)
+                none_t = g.target_for(0 if is_opt else 1)      # None / Err(overflow)
                 if lp:
                     # overflow edge leaves the session loop
                     seen, st = set(), [none_t]
